@@ -460,3 +460,132 @@ def r5e_same_file_last(ctx):
         r.violate("R5e|%s|same-file stage is %s(%s)" % (core.id, sf.selector, sf.key_field),
                   "same-file stage selects with %s(%s) instead of the maximum by line" % (sf.selector, sf.key_field))
     return r
+
+
+# ------------------------------------------------------------------------------------------ R5f: bounds of the conftest walk
+def r5f_walk_bounds(ctx):
+    """the upward conftest walks (natural loops that step a directory to its parent() and join "conftest.py") leave through
+    the end of the path only"""
+    from .r1e import natural_loops, _skip_goto
+    from ..core import op_str
+    r = Result("R5f", "every upward conftest walk (a loop that replaces a directory by its parent() and looks at "
+                      "<dir>/conftest.py) ends only where the path ends: the only exits that fall out of the loop into the code "
+                      "after it are the None outcome of parent(); an additional `break` (e.g. at the workspace root) bounds the "
+                      "walk in one resolver and not in its siblings")
+    crate = ctx.bin
+    n = 0
+    for f in crate.real_fns():
+        if f.kind not in ("fn", "method", "closure"):
+            continue
+        if not any(re.search(r"path::Path::parent$", c.get("res") or "") for _b, c in f.calls()):
+            continue
+        for h, latches, body in natural_loops(f):
+            parents = [(b, f.blocks[b]["t"][1]) for b in body if f.blocks[b]["t"][0] == "call"
+                       and re.search(r"path::Path::parent$", f.blocks[b]["t"][1].get("res") or "")]
+            if not parents:
+                continue
+            joins = [b for b in body if f.blocks[b]["t"][0] == "call" and re.search(r"path::Path::join$", f.blocks[b]["t"][1].get("res") or "")
+                     and any(_lit_of(f, a) == "conftest.py" for a in f.blocks[b]["t"][1]["args"][1:])]
+            if not joins:
+                continue
+            # innermost loop containing the parent() call only
+            if any(set(b2) < body and any(pb in b2 for pb, _ in parents) for _h2, _l2, b2 in natural_loops(f) if b2 != body):
+                continue
+            n += 1
+            # Option locals holding the parent() result (through moves)
+            opts = {place_local(c["dest"]) for _b, c in parents}
+            for _ in range(4):
+                for bb, si, pl, rv, sp in f.assigns():
+                    if isinstance(pl, int) and rv[0] == "use" and op_local(rv[1]) in opts and not place_projs(op_place(rv[1])):
+                        opts.add(pl)
+            # exit edges
+            fall = None
+            exits = []
+            for b in sorted(body):
+                t = f.blocks[b]["t"]
+                succs = f.succs(b)
+                for s2 in succs:
+                    if s2 in body or f.blocks[s2]["t"][0] == "unreachable":
+                        continue
+                    kind = "other"
+                    if t[0] == "switch":
+                        for st in f.blocks[b]["s"]:
+                            if st[0] == "=" and st[2][0] == "discr" and place_local(st[2][1]) in opts and op_local(t[1]) == place_local(st[1]):
+                                kind = "parent-none"
+                    exits.append((b, s2, kind))
+            pn = [e for e in exits if e[2] == "parent-none"]
+            key = "R5f|%s" % f.id
+            if not pn:
+                r.violate(key + "|no-end-of-path-exit", "the conftest walk in %s has no exit on the None outcome of parent()" % f.id)
+                continue
+            fall = {_skip_trivial(f, e[1]) for e in pn}
+            extra = []
+            for b, s2, kind in exits:
+                if kind == "parent-none":
+                    continue
+                if _skip_trivial(f, s2) in fall:
+                    extra.append(crate.span_str(_span_of_block(f, b)))
+            if extra:
+                r.violate(key + "|extra-break", "the conftest walk in %s can also be left at %s into the code after the loop: the walk is "
+                                                "bounded by something else than the end of the path" % (f.id, sorted(set(extra))[:3]))
+            else:
+                r.ok(sample={"walk_in": f.id, "exits": len(exits), "end_of_path_exits": len(pn)})
+    r.floor("conftest walks", n, 2)
+    return r
+
+
+def _lit_of(f, op):
+    from ..core import op_str
+    s = op_str(op)
+    if s is not None:
+        return s
+    l = op_local(op)
+    if l is None:
+        return None
+    for d in f.whole_defs(l):
+        if d[0] == "assign" and d[3][0] == "use":
+            s = op_str(d[3][1])
+            if s is not None:
+                return s
+        if d[0] == "call" and d[2]["args"]:
+            s = op_str(d[2]["args"][0])
+            if s is not None:
+                return s
+    return None
+
+
+def _skip_trivial(f, b, limit=12):
+    """the first block after b that does something: goto / drop / storage-only blocks are skipped (normal successor)"""
+    while limit:
+        t = f.blocks[b]["t"]
+        if t[0] == "goto":
+            b = t[1]
+        elif t[0] == "drop":
+            b = f.succs(b)[0]
+        else:
+            break
+        limit -= 1
+    return b
+
+
+def _reaches_plain(f, a, b):
+    seen, st = {a}, [a]
+    while st:
+        x = st.pop()
+        if x == b:
+            return True
+        for s in f.succs(x):
+            if s not in seen:
+                seen.add(s)
+                st.append(s)
+    return False
+
+
+def _span_of_block(f, b):
+    t = f.blocks[b]["t"]
+    if t[0] == "call":
+        return t[1]["span"]
+    for st in reversed(f.blocks[b]["s"]):
+        if st[0] == "=":
+            return st[3]
+    return [0, f.line, 0, f.line, ""]
